@@ -149,4 +149,7 @@ MUTANTS = [
          find='        view = self.view_cls(context) if self.context else self.view_cls()\n',
          replace='        view = self.view_cls(context) if self.context else self.view_cls()\n        self._view = view\n',
          expect=['SHARED-WRITE', 'RETAIN']),
+    dict(name='logger-per-method-name', file='pjrpc/server/dispatcher.py', nth=0,
+         find='logger.info("method execution error %s(%r): %r", request.method, request.params, e)',
+         replace='logger.getChild(request.method).info("method execution error (%r): %r", request.params, e)', expect='RETAIN'),
 ]
